@@ -22,9 +22,13 @@ LabToks == {"t", "tt", "ttt"}
 \* every macro takes three parameters (surplus arguments of a use are ignored); their names are prefixes / extensions of each other and of body tokens
 ParamSets == {<<"r", "rx", "r_">>, <<"rx", "r", "r1">>, <<"tt", "t", "t2">>, <<"r", "t", "r_1">>, <<"k", "r", "t">>, <<"t", "rx", "r">>}
 
-\* arguments: registers, labels, and bracketed memory operands (several tokens)
+\* arguments: registers, labels, numbers, bracketed memory operands (several tokens), segment registers
 ArgToks == {<<"ax">>, <<"bx">>, <<"cx">>, <<"t">>, <<"tt">>, <<"ttt">>, <<"word", "[", "bx", "]">>, <<"word", "[", "bp", ",", "si", ",", "2", "]">>,
-            <<"7">>, <<"40000">>, <<"0xFFFF">>, <<"0b1000000000000000">>}
+            <<"7">>, <<"40000">>, <<"0xFFFF">>, <<"0b1000000000000000">>,
+            \* a byte memory operand, a segment register.  (The grammar also takes `byte <label>` / `word <label>` as an
+            \* argument and substitutes the bare label name; C13 lists identifier, register, number and bracketed-memory
+            \* arguments only, so that form is not judged: DESIGN section 8.)
+            <<"byte", "[", "si", "]">>, <<"es">>}
 RegParams == {"r", "rx", "r_", "r1", "r_1"}
 \* macros are named in a fixed order; a body may use the macros defined so far (most uses), itself or the
 \* next one (cycles, forward references) and a macro passed in through parameter k
